@@ -27,6 +27,7 @@ def run(ck):
     sys_common.validate(ck, files)
     ck.sample_lines(files[0], 1, skip=1)
     isa_common.family_check(ck, FAMILY, ck.pick(4, 16), 'c09', parts=8, rounds=1)
+    isa_common.sweep_all(ck, 'c09', seedoff=900)
     ck.assumptions += sys_common.SYS_ASSUMPTIONS + [
         'counts up to 65535 are sampled (register forms), all small counts enumerated; the unrolled-code comparison is '
         'made on the specification (closed-form execution counts), the code is bound to the specification cycle by cycle']
